@@ -228,7 +228,19 @@ def run_job(job, res, prefixes, budget, deadline):
             st = res.obligation(I, zor(*[znot(mnum.req(g[2], t[2])) for g, t in zip(got, found)]), 'each description carries the constant that was handed to the evaluator', lambda m: cand('description-carries-other-constant', 'value differs', m))
             if st == 'unsat': res.witness('descriptions-match-lookups')
         else: res.witness('descriptions-match-lookups')
-        if len(found) != len({t[0] for t in found}): res.witness('same-phrase-twice')
+        # reference side: when every result is a value, every phrase of the query was USED -- each occurrence (maximal run of
+        # words) must be described, whether or not the evaluator went to the database for it again
+        if r1.results and all(x.variant == 'Ok' for x in r1.results):
+            occ = []; run = []
+            for t in list(toks) + [('end',)]:
+                if t[0] == 'raw': run.append(t[1])
+                else:
+                    if run: occ.append(' '.join(run)); run = []
+            res['obligations'] += 1
+            if sorted(' '.join(g[0].split()) for g in got) != sorted(occ):
+                cand('descriptions-differ-from-phrases-used', f'described {[g[0] for g in got]}, the query uses {occ}'); return
+            res['discharged'] += 1
+            if len(occ) != len(set(occ)): res.witness('same-phrase-twice')
         if any(' ' in t[0] for t in found): res.witness('sentence-phrase')
         if job.get('realdb'): res.witness('real-lookup-body')
         if len(res['samples']) < 5 and len(found) >= 2:
